@@ -68,7 +68,7 @@ LEVELS = ["IIV", "IOV", "RUV"]
 
 
 def budget(tier):
-    return int(os.environ.get("VERIF_BUDGET", 0)) or {"quick": 2500, "thorough": 30000}[tier]
+    return int(os.environ.get("VERIF_BUDGET", 0)) or {"quick": 3000, "thorough": 60000}[tier]
 
 
 # ---------------------------------------------------------------- generation
